@@ -69,7 +69,7 @@ func runC16(a *A) {
 		}
 		tested := map[string]bool{}
 		allInstrs(ej, func(in ssa.Instruction) {
-			if bo, ok := in.(*ssa.BinOp); ok && bo.Op == token.EQL {
+			if bo, ok := in.(*ssa.BinOp); ok && (bo.Op == token.EQL || bo.Op == token.NEQ) {
 				if t := TermOf(bo.X, nil); t.Kind == "field" && t.Field == jtF {
 					if k, ok := bo.Y.(*ssa.Const); ok && k.Value != nil {
 						tested[constant.StringVal(k.Value)] = true
@@ -95,10 +95,25 @@ func runC16(a *A) {
 			fmt.Sprintf("parser writes JoinType {%s} but enrichJoin tests {%s}: a join kind would silently behave as another", strings.Join(ws, ","), strings.Join(ts, ",")))
 		// drop only on not matched and not LEFT; matched rows attached
 		var matched ssa.Value
+		containsLookup := func(f *ssa.Function) bool {
+			found := false
+			for _, h := range append([]*ssa.Function{f}, a.helpersOf(f)...) {
+				allInstrs(h, func(x ssa.Instruction) {
+					if c, ok := x.(*ssa.Call); ok && c.Call.IsInvoke() && c.Call.Method.Name() == "Lookup" {
+						found = true
+					}
+				})
+			}
+			return found
+		}
 		allInstrs(ej, func(in ssa.Instruction) {
-			if ex, ok := in.(*ssa.Extract); ok && ex.Index == 1 {
-				if c, ok := ex.Tuple.(*ssa.Call); ok && c.Call.IsInvoke() && c.Call.Method.Name() == "Lookup" {
-					matched = ex
+			if ex, ok := in.(*ssa.Extract); ok && ex.Index == 1 && isBool(ex.Type()) {
+				if c, ok := ex.Tuple.(*ssa.Call); ok {
+					if c.Call.IsInvoke() && c.Call.Method.Name() == "Lookup" {
+						matched = ex
+					} else if sc := c.Call.StaticCallee(); sc != nil && sc.Pkg == ej.Pkg && sc.Blocks != nil && containsLookup(sc) {
+						matched = ex // a helper that performs the lookup and hands back (row, matched)
+					}
 				}
 			}
 		})
@@ -125,9 +140,9 @@ func runC16(a *A) {
 						return F // no key component is NULL
 					}
 				}
-				if bo, ok := v.(*ssa.BinOp); ok && bo.Op == token.EQL {
+				if bo, ok := v.(*ssa.BinOp); ok && (bo.Op == token.EQL || bo.Op == token.NEQ) {
 					if tt := TermOf(bo.X, nil); tt.Kind == "field" && tt.Field == jtF {
-						return tri(cs.left)
+						return tri(cs.left == (bo.Op == token.EQL))
 					}
 				}
 				if ex, ok := v.(*ssa.Extract); ok && ex.Index == 1 {
@@ -177,27 +192,47 @@ func runC16(a *A) {
 			field string
 		}{{ej, "StreamField"}, {jk, "TableField"}} {
 			ok := false
-			for _, l := range rangeLoops(inst.fn) {
-				if l.X == nil || !isFieldOf(TermOf(l.X, nil), "types.JoinConfig", "OnPairs") {
-					continue
+			// the key is built in the function itself or in helpers it calls (two levels)
+			hosts := []*ssa.Function{inst.fn}
+			for _, h := range a.helpersOf(inst.fn) {
+				hosts = append(hosts, h)
+				hosts = append(hosts, a.helpersOf(h)...)
+			}
+			isPairs := func(v ssa.Value) bool {
+				if isFieldOf(TermOf(v, nil), "types.JoinConfig", "OnPairs") {
+					return true
 				}
-				// a store key[i] = f(p.<field>) with the loop's index
-				for b := range l.Blocks {
-					for _, in := range b.Instrs {
-						st, isSt := in.(*ssa.Store)
-						if !isSt {
-							continue
-						}
-						ia, isIA := st.Addr.(*ssa.IndexAddr)
-						if !isIA {
-							continue
-						}
-						idxIsLoop := false
-						if bo, isB := ia.Index.(*ssa.BinOp); isB && bo.Block() == l.Header {
-							idxIsLoop = true
-						}
-						if idxIsLoop && strings.Contains(TermOf(st.Val, nil).String(), "OnPairs[]."+inst.field) {
-							ok = true
+				if sl, ok := v.Type().Underlying().(*types.Slice); ok {
+					return isNamedType(sl.Elem(), modPath+"/types", "JoinOnPair")
+				}
+				return false
+			}
+			for _, host := range hosts {
+				for _, l := range rangeLoops(host) {
+					if l.X == nil || !isPairs(l.X) {
+						continue
+					}
+					// a store key[i] = f(p.<field>) with the loop's index
+					for b := range l.Blocks {
+						for _, in := range b.Instrs {
+							st, isSt := in.(*ssa.Store)
+							if !isSt {
+								continue
+							}
+							ia, isIA := st.Addr.(*ssa.IndexAddr)
+							if !isIA {
+								continue
+							}
+							idxIsLoop := false
+							if bo, isB := ia.Index.(*ssa.BinOp); isB && bo.Block() == l.Header {
+								idxIsLoop = true
+							}
+							if l.Index != nil && ia.Index == l.Index {
+								idxIsLoop = true
+							}
+							if idxIsLoop && strings.Contains(TermOf(st.Val, nil).String(), "[]."+inst.field) {
+								ok = true
+							}
 						}
 					}
 				}
